@@ -372,3 +372,17 @@ package sender
 //@   at[C15,C14] (*rsyncopts.Options).PreserveDevices: assert [tokens-after-gid] select(ghost.bufacc, addr(s.fec.buf)) == entryIds(entryFixed(flags, name, size, wrap32s(infoMSec(data(info))), mode), s.st.Opts.preserve_uid != 0, infoUid(data(info)), s.st.Opts.preserve_gid != 0, infoGid(data(info)))
 //@   at[C15,C14] (*rsyncopts.Options).PreserveLinks: assert [tokens-after-rdev] select(ghost.bufacc, addr(s.fec.buf)) == entryRdev(entryIds(entryFixed(flags, name, size, wrap32s(infoMSec(data(info))), mode), s.st.Opts.preserve_uid != 0, infoUid(data(info)), s.st.Opts.preserve_gid != 0, infoGid(data(info))), s.st.Opts.preserve_devices != 0, s.st.Opts.preserve_specials != 0, mode, infoRdev(data(info)))
 //@   at[C15,C14] (*rsyncopts.Options).AlwaysChecksum: assert [tokens-after-link] select(ghost.bufacc, addr(s.fec.buf)) == entryUpToLink(s, flags, name, size, data(info), mode, path)
+
+// ---------------------------------------------------------------- C13: the client's own rules
+// ParseFilterList makes one rule per line, in order (each through parseFilter
+// and addRule, which have their own contracts). That the k-th rule carries
+// the sense of the k-th line is not stated: the frame of addRule (it edits
+// the rule it is given) cannot be separated from the rules already in the
+// list without an allocation model for heap-stored references.
+//@ func (*sender.filterRuleList).addRule
+//@   ensures[C13] [appended] err == nil ==> len(l.Filters) == old(len(l.Filters)) + 1 && l.Filters[old(len(l.Filters))] == fr && (forall k :: 0 <= k && k < old(len(l.Filters)) ==> l.Filters[k] == old(l.Filters[k]))
+//@   ensures[C13] [sense-kept] mod(fr.flag, 2) == old(mod(fr.flag, 2))
+//@ func sender.ParseFilterList
+//@   fresh
+//@   ensures[C13] [one-rule-per-line] err == nil ==> result != nil && len(result.Filters) == len(rules)
+//@   loop[C13] 0: invariant [one-rule-per-earlier-line] -1 <= rangeindex && len(l.Filters) == rangeindex + 1
